@@ -1402,7 +1402,7 @@ pub struct ExecOpts {
     pub run_index: u64,
 }
 
-fn write_status(opts: &mut ExecOpts, op_index: i64) {
+pub fn write_status(opts: &mut ExecOpts, op_index: i64) {
     use std::io::{Seek, SeekFrom, Write};
     if let Some(f) = opts.status.as_mut() {
         let line = format!("{:>20} {:>6}\n", opts.run_index, op_index);
